@@ -43,6 +43,10 @@ EXPECTED_MISS = {
                 'fires on the unchanged library too (a non-EACCES OSError '
                 'there) and was withdrawn as demanding more than the '
                 'property states',
+    'C09-r10-2': 'breaks reload behaviour without a main file (a flag '
+                 'that the rebuild branch never raises: C10.DEFAULTS, '
+                 'C10.REAPPLY, C12.RELOAD, C20.FLAGS and C20.LOAD-STEP '
+                 'fire), not the layering order C09 states',
     'C20-r8-1': 'pre-fills the not yet published store so that a concurrent '
                 'caller no longer finds it empty and no longer reloads for '
                 'itself: the write discipline is unchanged, what changes is '
@@ -73,6 +77,9 @@ EXPECTED_INCONCLUSIVE = {
              'read (reported until round 10 only by non-recognition)',
     'C04-r2-2': 'a bare placeholder is recognised by the constructor and '
                 'kept in a derived attribute (same)',
+    'C13-r10-2': 'both walkers replaced by one reference graph filled by '
+                 'a recursive generator and a path-sensitive search over '
+                 'it (declined like C13-r5-2 / C13-r6-1)',
     'C08-r6-2': 'the gate hands its error back instead of raising it '
                 '(C07.SURFACE / C14.SURFACE report the raise outside the '
                 'gate; C08 declines)',
@@ -117,6 +124,29 @@ NEUTRAL_DECLINED.update({
                         'C09', 'C11', 'C12')},
     'C13-n9-2': {'C13': 'walker answers with the offending check object or '
                         'None instead of a verdict'},
+})
+_CTOR = ('the pattern is worked out once by the constructor and kept in '
+         'a derived attribute, which the path analysis of __call__ does '
+         'not read')
+NEUTRAL_DECLINED.update({
+    'C01-n10-2': {'C01': 'reducer driver rewritten (del + append loop '
+                         'instead of two slice assignments)'},
+    'C02-n10-3': {p: 'alternatives of a list rule produced by a generator '
+                     'helper' for p in ('C01', 'C15')},
+    'C03-n10-3': {p: 'default rule picked by a loop over a local generator '
+                     'of candidates' for p in ('C03', 'C06')},
+    'C04-n10-1': {'C04': 'membership asked through a local predicate '
+                         'closure handed to map()'},
+    'C04-n10-2': {'C04': _CTOR},
+    'C04-n10-3': {'C04': 'held role names produced by a generator helper'},
+    'C13-n10-1': {'C13': 'alias chains followed in place by a while loop'},
+    'C13-n10-3': {'C13': 'validator findings produced by a generator '
+                         'helper'},
+    'C14-n10-3': {'C05': 'tail recursion of the walker turned into a '
+                         'while loop'},
+    'C19-n10-2': {'C19': 'evaluation errors swallowed by a context manager '
+                         'class of the program'},
+    'C20-n10-3': {'C13': 'walker answers collected in comprehensions'},
 })
 # refactorings that preserve the property they were written for and break
 # another one: the report of that other check is right
